@@ -215,9 +215,64 @@ fn hist_entry() -> impl Strategy<Value = (RawH, u8)> {
     (prop_oneof![2 => gens::norm_hash(64), 2 => gens::norm_hash(32)], any::<u8>())
 }
 
+/// make some history entries close relatives of their predecessor (same block size and block hash 1,
+/// block hash 2 equal to block hash 1, shifted or swapped strings, same length built from the old tail):
+/// the situations in which a "nothing changed" shortcut would wrongly fire
+fn relate(history: &mut [(RawH, u8)], codes: &[u8]) {
+    for i in 1..history.len() {
+        let prev = history[i - 1].0.clone();
+        let h = &mut history[i].0;
+        match codes.get(i).copied().unwrap_or(0) % 12 {
+            4 => {
+                h.log = prev.log;
+                h.bh1 = prev.bh1.clone();
+            }
+            5 => {
+                *h = prev.clone();
+                h.bh2 = prev.bh1.clone();
+            }
+            6 => {
+                *h = prev.clone();
+                if h.bh1.len() >= 2 {
+                    h.bh1.remove(0);
+                    let l = *h.bh1.last().unwrap();
+                    h.bh1.push(l);
+                }
+            }
+            7 => {
+                *h = prev.clone();
+                std::mem::swap(&mut h.bh1, &mut h.bh2);
+            }
+            8 => {
+                *h = prev.clone();
+                let n = h.bh2.len();
+                if n >= 2 {
+                    let tail: Vec<u8> = prev.bh2[n / 2..].to_vec();
+                    h.bh2 = (0..n).map(|k| tail[k % tail.len()]).collect();
+                }
+            }
+            9 => {
+                *h = prev.clone();
+                if h.bh2.len() >= 2 {
+                    h.bh2.remove(0);
+                    let l = *h.bh2.last().unwrap();
+                    h.bh2.push(l);
+                }
+            }
+            _ => {}
+        }
+        h.bh1.truncate(64);
+        h.bh2.truncate(64);
+        *h = h.collapsed();
+    }
+}
+
 pub fn strategy() -> impl Strategy<Value = Case> {
     (
-        proptest::collection::vec(hist_entry(), 1..=5),
+        (proptest::collection::vec(hist_entry(), 1..=5), proptest::collection::vec(any::<u8>(), 5)).prop_map(|(mut h, codes)| {
+            relate(&mut h, &codes);
+            h
+        }),
         proptest::collection::vec((any::<u16>(), proptest::collection::vec(gens::edit(), 0..4)), 0..3),
         proptest::collection::vec(gens::norm_hash(64), 0..2),
         any::<bool>(),
@@ -252,8 +307,40 @@ pub fn subchecks(tier: Tier) -> Vec<SubCheck> {
                 (
                     proptest::collection::vec(prop_oneof![5 => gens::block_hash(64).prop_map(PaOp::Init), 1 => Just(PaOp::Clear)], 1..=5),
                     proptest::collection::vec(gens::block_hash(64), 0..3),
+                    proptest::collection::vec(any::<u8>(), 5),
                 )
-                    .prop_map(|(ops, probes)| PaCase { ops, probes })
+                    .prop_map(|(mut ops, probes, codes)| {
+                        // relatives of the previous string: left / right shifts, permutations of its tail, same length
+                        for i in 1..ops.len() {
+                            let prev = match &ops[i - 1] {
+                                PaOp::Init(s) => s.clone(),
+                                PaOp::Clear => continue,
+                            };
+                            if prev.len() < 2 {
+                                continue;
+                            }
+                            let n = prev.len();
+                            let next = match codes[i] % 10 {
+                                5 => {
+                                    let mut v = prev[1..].to_vec();
+                                    v.push(prev[n - 1]);
+                                    Some(v)
+                                }
+                                6 => {
+                                    let mut v = vec![prev[0]];
+                                    v.extend_from_slice(&prev[..n - 1]);
+                                    Some(v)
+                                }
+                                7 => Some((0..n).map(|k| prev[n / 2 + k % (n - n / 2)]).collect()),
+                                8 => Some(Vec::new()),
+                                _ => None,
+                            };
+                            if let Some(v) = next {
+                                ops[i] = PaOp::Init(v);
+                            }
+                        }
+                        PaCase { ops, probes }
+                    })
             },
             eval_pa,
         ),
